@@ -115,7 +115,8 @@ func analyseClientIn(c *Ctx, pkgRel, typeName string, serial bool) *clientInfo {
 	}
 	// the transport Read / Write inside do
 	for _, cr := range ci.an.calls {
-		if cr.frame != ci.inner || cr.method == "" {
+		// in do itself or in a helper do calls (the write half is sometimes split off)
+		if !cr.frame.within(ci.inner) || cr.method == "" {
 			continue
 		}
 		if !ci.isField(cr.recv, ci.transport) {
@@ -181,7 +182,7 @@ func (ci *clientInfo) id(fn *ssa.Function) string { return fnID(fn) }
 func (ci *clientInfo) callsIn(fr *Frame, pred func(*CallRec) bool) []*CallRec {
 	var out []*CallRec
 	for _, cr := range ci.an.calls {
-		if cr.frame == fr && pred(cr) {
+		if cr.frame.within(fr) && !(fr == ci.top && cr.frame.within(ci.inner) && ci.inner != ci.top) && pred(cr) {
 			out = append(out, cr)
 		}
 	}
@@ -340,4 +341,62 @@ func init() {
 			clientControls(c, r, prop)
 		}
 	}
+}
+
+// within: f is anc or a frame inlined (transitively) under anc.
+func (f *Frame) within(anc *Frame) bool {
+	for x := f; x != nil; x = x.parent {
+		if x == anc {
+			return true
+		}
+	}
+	return false
+}
+
+// liftTo returns the instruction of anc's function through which the call cr was reached: the
+// call itself, or the call of the helper (inlined under anc) that contains it.
+func liftTo(anc *Frame, cr *CallRec) ssa.Instruction {
+	if cr.frame == anc {
+		return cr.instr
+	}
+	x := cr.frame
+	for x.parent != nil && x.parent != anc {
+		x = x.parent
+	}
+	if x.parent != anc {
+		return nil
+	}
+	for ci, ch := range anc.child {
+		if ch == x {
+			return ci.(ssa.Instruction)
+		}
+	}
+	return nil
+}
+
+// childOfCall: the inlined frame of the call that produced the (merged) value v, if any.
+func (ci *clientInfo) childOfCall(v AV) *Frame {
+	ref, ok := v.(ARef)
+	if !ok {
+		return nil
+	}
+	for _, cr := range ci.an.calls {
+		hit := false
+		if t, ok := cr.res.(ATuple); ok {
+			for _, e := range t {
+				if r, ok := e.(ARef); ok && r.key == ref.key {
+					hit = true
+				}
+			}
+		}
+		if r, ok := cr.res.(ARef); ok && r.key == ref.key {
+			hit = true
+		}
+		if hit && cr.callee != nil {
+			if ch := cr.frame.child[cr.instr]; ch != nil {
+				return ch
+			}
+		}
+	}
+	return nil
 }
